@@ -7,7 +7,7 @@ props = [json.loads(l)["id"] for l in open(os.path.join(HERE, "properties.jsonl"
 checks, na = [], []
 for pid in props:
     m = meta["properties"].get(pid, {})
-    have = os.path.exists(os.path.join(HERE, "vf", "props", pid.lower() + ".py")) and not m.get("disabled")
+    have = os.path.exists(os.path.join(HERE, "vf", "props", pid.lower() + ".py")) and "text" in m and not m.get("disabled")
     if not have:
         na.append({"property_id": pid, "reason": m.get("na_reason", "check not built yet in this round; design in DESIGN.md section 3")})
         continue
